@@ -1345,3 +1345,86 @@ func ruleRegexpGroupNumbering(r *Run) {
 		o.OK("mapping[i] = name for i, name := range re.SubexpNames()").At(r.pos(fn.Pos()))
 	}
 }
+
+// ruleBinOpPairsMatched (PV-PAIR): a vector-to-vector operation combines two samples only when
+// their label sets have the same grouping key: every invocation of the sample operation takes
+// one operand from one side's samples and the other from a table of the other side looked up
+// under that sample's own key, and only when the lookup found an entry.
+func ruleBinOpPairsMatched(r *Run) {
+	p := r.P
+	fn := p.Method(metricPkg, "binOpIterator", "Next")
+	o := r.Ob("PV-PAIR", "logqlmetric.(*binOpIterator).Next operands", "the sample operation is applied only to a pair matched by grouping key: one operand is looked up under the other operand's Set.Key() and the lookup succeeded")
+	if fn == nil {
+		o.Fail("-", "method not found")
+		return
+	}
+	grp := funcGroup(fn)
+	n := 0
+	bad := false
+	for _, g := range grp {
+		for _, c := range callsIn(g) {
+			call, ok := c.(*ssa.Call)
+			if !ok || call.Call.IsInvoke() || staticCallee(call) != nil || len(call.Call.Args) != 2 {
+				continue
+			}
+			if f, _, ok := loadOfField(call.Call.Value); !ok || f != "op" {
+				if _, isParam := originValueIn(call.Call.Value, grp).(*ssa.Parameter); !isParam || typeKey(call.Call.Value.Type()) != "SampleOp" {
+					continue
+				}
+			}
+			n++
+			matched := false
+			for j := 0; j < 2; j++ {
+				looked, other := unspillValue(call.Call.Args[j]), call.Call.Args[1-j]
+				ex, ok := looked.(*ssa.Extract)
+				if !ok || ex.Index != 0 {
+					continue
+				}
+				lk, ok := ex.Tuple.(*ssa.Lookup)
+				if !ok || !lk.CommaOk {
+					continue
+				}
+				kc, ok := unspillValue(lk.Index).(*ssa.Call)
+				if !ok || !invokeIs(kc, "Key") {
+					continue
+				}
+				// Key() of the other operand's own label set
+				sf, sb, ok := loadOfField(kc.Call.Value)
+				if !ok || sf != "Set" {
+					continue
+				}
+				same := false
+				if u, ok := other.(*ssa.UnOp); ok && u.X == sb {
+					same = true
+				}
+				if other == sb || unspillValue(other) == unspillValue(sb) {
+					same = true
+				}
+				if !same {
+					continue
+				}
+				var okv ssa.Value
+				for _, ref := range *lk.Referrers() {
+					if e2, ok := ref.(*ssa.Extract); ok && e2.Index == 1 {
+						okv = e2
+					}
+				}
+				if b, known := knownBoolAt(call.Block(), okv); known && b {
+					matched = true
+				}
+			}
+			if !matched {
+				bad = true
+				o.Fail(r.pos(call.Pos()), "the operation is applied to (%s, %s) without matching their grouping keys", describe(call.Call.Args[0], 1), describe(call.Call.Args[1], 1))
+			}
+		}
+	}
+	if n == 0 {
+		o.Fail(r.pos(fn.Pos()), "the sample operation is never invoked")
+		return
+	}
+	if !bad {
+		o.OK("%d invocation(s), each on (table[sample.Set.Key()], sample) under ok", n).At(r.pos(fn.Pos()))
+	}
+}
+
